@@ -33,6 +33,8 @@ pub enum Step {
 }
 
 pub const STEP_HORIZON: usize = 100_000;
+/// correct tables keep the stacks shorter than the input plus the longest chain of unit reductions
+pub const MAX_STACK: usize = 4_096;
 
 pub struct Model<'a> {
     pub case: &'a Case,
@@ -81,7 +83,12 @@ impl<'a> Model<'a> {
                     if seen.contains(&cfg.states) {
                         return Step::Loops("a configuration repeats without consuming input".into());
                     }
-                    seen.push(cfg.states.clone());
+                    if seen.len() < 64 {
+                        seen.push(cfg.states.clone());
+                    }
+                    if cfg.states.len() > MAX_STACK || cfg.nodes.len() > MAX_STACK {
+                        return Step::Loops(format!("the stacks grow beyond {MAX_STACK} entries without consuming input"));
+                    }
                     let Some(r) = ex.reduce.get(k) else { return Step::WouldPanic(format!("rule kind {k} out of range")) };
                     let prod = self.b.rule[k] as usize;
                     let rhs = &self.case.g.prods[prod].1;
